@@ -239,16 +239,11 @@ func H_C21_str_escape1() {
 // non-surrogates); the first escape's digits range over [0-9a-f], the second's over all bytes
 // in the thorough tier and over [0-9a-f] in the quick tier.
 //
-//verif:props=C21,C20 bounds="\uXXXX\uYYYY";X-in-[0-9a-f];Y-in-[0-9a-f](quick)/any-byte(thorough)
+//verif:props=C21,C20 bounds="\uXXXX\uYYYY";X-in-[0-9a-f];Y-any-byte tier=thorough timeout=30000
 func H_C21_str_escape2() {
 	h := nd.BytesN(8)
 	for i := 0; i < 4; i++ {
 		nd.Assume(lowerHex(h[i]))
-	}
-	if !nd.Thorough() {
-		for i := 4; i < 8; i++ {
-			nd.Assume(lowerHex(h[i]))
-		}
 	}
 	in := []byte{'"', '\\', 'u', h[0], h[1], h[2], h[3], '\\', 'u', h[4], h[5], h[6], h[7], '"'}
 	checkParseString(in)
